@@ -837,7 +837,12 @@ func Select(hasDefault bool, cases ...Case) (int, any, bool) {
 		rc := make([]reflect.SelectCase, 0, len(cases)+1)
 		for _, c := range cases {
 			if c.c.send {
-				rc = append(rc, reflect.SelectCase{Dir: reflect.SelectSend, Chan: reflect.ValueOf(c.raw), Send: reflect.ValueOf(c.c.val)})
+				cv := reflect.ValueOf(c.raw)
+				sv := reflect.ValueOf(c.c.val)
+				if !sv.IsValid() && cv.Kind() == reflect.Chan { // a nil interface value (e.g. a nil error)
+					sv = reflect.Zero(cv.Type().Elem())
+				}
+				rc = append(rc, reflect.SelectCase{Dir: reflect.SelectSend, Chan: cv, Send: sv})
 			} else {
 				rc = append(rc, reflect.SelectCase{Dir: reflect.SelectRecv, Chan: reflect.ValueOf(c.raw)})
 			}
